@@ -212,6 +212,154 @@ impl SubCheck for CellFault {
     }
 }
 
+// CORRELATED FAULTS IN SEVERAL ASSERTED CELLS
+// ================================================================================================
+
+#[derive(Serialize, Deserialize, Clone, Debug)]
+pub struct MultiCase {
+    pub shape: Shape,
+    pub step_sel: u16,
+    pub col_sel: u16,
+    pub delta: X,
+    /// 0: (d, -d)   1: (d, d)   2: (d, -2d, d)   3: independent deltas   4: (d, -d) on two steps of one column
+    pub pattern: u8,
+}
+
+pub struct CorrelatedFaults {
+    pub tier: Tier,
+}
+
+fn multi_one<B: FA, H: ElementHasher<BaseField = B> + Send + Sync>(c: &MultiCase, tier: Tier, obs: &mut Obs) -> CheckResult {
+    let fp = B::FP;
+    // steer the shape towards several exempted transitions (the selector's classes 0/1 mostly give one)
+    let mut shape = c.shape.clone();
+    if shape.exempt_sel % 4 < 2 {
+        shape.exempt_sel |= 2;
+    }
+    let inst = realize::<B>(&shape, small_budget(tier));
+    let n = inst.desc.n();
+    let k = inst.desc.exemptions;
+    let w = inst.desc.width();
+    // rows n-k+1 .. n-1 are neither `current` nor `next` of an enforced transition: a fault there can
+    // violate assertions only
+    if k < 2 {
+        obs.label("excluded:no-free-row");
+        return Ok(());
+    }
+    let free: Vec<usize> = (n - k + 1..n).collect();
+    let d = {
+        let d = c.delta.0 % fp.p;
+        if d == 0 {
+            1
+        } else {
+            d
+        }
+    };
+    let neg = |x: u128| fp.sub(0, x);
+    // the faulted cells and their deltas
+    let cells: Vec<(usize, usize, u128)> = match c.pattern % 5 {
+        4 if free.len() >= 2 => {
+            let col = pick_index(c.col_sel, w);
+            let i = pick_index(c.step_sel, free.len() - 1);
+            obs.label("pattern:(d,-d)-two-steps-one-column");
+            vec![(col, free[i], d), (col, free[i + 1], neg(d))]
+        },
+        p => {
+            if w < 2 {
+                obs.label("excluded:single-column");
+                return Ok(());
+            }
+            let step = free[pick_index(c.step_sel, free.len())];
+            let c0 = pick_index(c.col_sel, w);
+            let c1 = (c0 + 1 + (c.col_sel as usize % (w - 1))) % w;
+            match p {
+                1 => {
+                    obs.label("pattern:(d,d)");
+                    vec![(c0, step, d), (c1, step, d)]
+                },
+                2 if w >= 3 => {
+                    let c2 = (0..w).find(|x| *x != c0 && *x != c1).unwrap();
+                    obs.label("pattern:(d,-2d,d)");
+                    vec![(c0, step, d), (c1, step, neg(fp.add(d, d))), (c2, step, d)]
+                },
+                3 => {
+                    obs.label("pattern:independent");
+                    vec![(c0, step, d), (c1, step, fp.add(fp.mul(d, d), 1).max(1))]
+                },
+                _ => {
+                    obs.label("pattern:(d,-d)");
+                    vec![(c0, step, d), (c1, step, neg(d))]
+                },
+            }
+        },
+    };
+    // statement: the instance's own plus single assertions of the TRUE values of the cells about to be faulted
+    let mut d2 = inst.desc.clone();
+    let used = asserted_cells(&inst.desc);
+    for (col, step, _) in &cells {
+        if !used.contains(&(*col, *step)) {
+            d2.assertions.push(Assert::Single { col: *col, step: *step, value: X(inst.trace[*col][*step]) });
+        }
+    }
+    let desc = Arc::new(d2);
+    let options = make_options(&inst.opts)?;
+    if ref_valid(&fp, &desc, &inst.trace).is_err() {
+        return Err(Fail::new("harness/extended-statement", "the unfaulted trace does not satisfy the statement extended by true assertions"));
+    }
+    // control: the unfaulted execution of the extended statement is accepted
+    if !prove_and_verify::<B, H>(&desc, &inst.trace, options.clone(), None, obs)? {
+        return Err(Fail::new("rejected-valid/extended-statement", format!("the valid execution is not accepted once true assertions at cells {:?} are added", cells.iter().map(|x| (x.0, x.1)).collect::<Vec<_>>())));
+    }
+    let mut trace = inst.trace.clone();
+    for (col, step, delta) in &cells {
+        trace[*col][*step] = fp.add(trace[*col][*step], *delta);
+    }
+    match ref_valid(&fp, &desc, &trace) {
+        Ok(()) => Err(Fail::new("harness/fault-not-invalidating", "faulting asserted cells left the trace valid")),
+        Err(why) => {
+            obs.nontrivial();
+            if prove_and_verify::<B, H>(&desc, &trace, options, None, obs)? {
+                return Err(Fail::new(
+                    "accepted-invalid/correlated-faults",
+                    format!("proof of an invalid execution accepted: asserted cells faulted together (col, step, delta) = {cells:?} (n = {n}, exemptions = {k}): {why}"),
+                ));
+            }
+            Ok(())
+        },
+    }
+}
+
+impl SubCheck for CorrelatedFaults {
+    type Case = MultiCase;
+    fn name(&self) -> String {
+        "correlated-faults".into()
+    }
+    fn cases(&self, tier: Tier) -> u64 {
+        tier.pick(1_000, 20_000)
+    }
+    fn watchdog_secs(&self) -> u64 {
+        300
+    }
+    fn shrink_iters(&self) -> usize {
+        40
+    }
+    fn rule(&self) -> String {
+        "a valid GenAir instance with >= 2 exempted transitions; two or three cells of one exempted row (different columns), or two exempted rows of one column, are asserted with their true values and then faulted together with deltas (d, -d), (d, d), (d, -2d, d) or unrelated ones, so that only boundary assertions are violated and the errors cancel in their sum; oracle = reference validity predicate; the unfaulted execution of the same extended statement must be accepted; non-trivial = the faulted trace is invalid and an answer was obtained".into()
+    }
+    fn required_labels(&self, _t: Tier) -> Vec<String> {
+        ["pattern:(d,-d)", "pattern:(d,d)", "pattern:(d,-2d,d)", "pattern:independent", "pattern:(d,-d)-two-steps-one-column"].iter().map(|s| s.to_string()).collect()
+    }
+    fn strategy(&self, tier: Tier) -> BoxedStrategy<MultiCase> {
+        (shape_strategy(&small_params(tier)), any::<u16>(), any::<u16>(), prop_oneof![Just(X(1)), any::<u128>().prop_map(X)], 0u8..5)
+            .prop_map(|(shape, step_sel, col_sel, delta, pattern)| MultiCase { shape, step_sel, col_sel, delta, pattern })
+            .boxed()
+    }
+    fn check(&self, c: &MultiCase, obs: &mut Obs) -> CheckResult {
+        let tier = self.tier;
+        crate::dispatch!(c.shape.field, c.shape.hasher, multi_one, c, tier, obs)
+    }
+}
+
 // EXHAUSTIVE CELLS OF SMALL TRACES
 // ================================================================================================
 
@@ -543,5 +691,6 @@ pub fn run(run: &mut Run) {
         |c: &CellCase, obs: &mut Obs| crate::dispatch!(c.shape.field, c.shape.hasher, cell_one, c, obs),
     );
     run.sub(&CellFault { tier });
+    run.sub(&CorrelatedFaults { tier });
     run.sub(&OtherStatement { tier });
 }
